@@ -60,8 +60,7 @@ def run(repo, tier):
     )
     r.trusted_base = ["Python ast", "sa/oracles/eft_reference.py (catalogue with citations)", "exactness of the normalising identities in IEEE-754 RN arithmetic"]
     r.assumptions = [
-        "the power-of-two splitter (C = 2^s) variant of the Veltkamp split is exact (no citation; package tests)",
-        "identities hold up to the sign of an exactly cancelling sum",
+                "identities hold up to the sign of an exactly cancelling sum",
         "assume_fma=True paths are not analysed (they presuppose a hardware FMA mapping)",
     ]
     r.rule("R10.1", "each kernel copy is dataflow-equal (normal form) to its catalogued proven algorithm for every option combination", floor=40)
@@ -127,10 +126,14 @@ def run(repo, tier):
     # fpa.split_veltkamp: unscaled with given C, unscaled default (C = N), scaled
     f_sv = repo.func(FPA, "split_veltkamp")
     same(f"{FPA}::split_veltkamp scale=False C given", run_kernel(FPA, "split_veltkamp", [ctx, x], dict(C=C, scale=False)), ref.call("", "veltkamp", [x, C]), loc(FPA, f_sv), "Veltkamp split")
-    same(f"{FPA}::split_veltkamp scale=False default C", run_kernel(FPA, "split_veltkamp", [ctx, x], dict(scale=False)), ref.call("", "veltkamp", [x, CONST("N")]), loc(FPA, f_sv), "Veltkamp split with C = N")
+    # the default splitter is the catalogue's constant 2^s + 1 (parameter "C"), not the scaling factor N = 2^s: with a power-of-two
+    # splitter the head word can take p - s + 1 bits (float32: x = 1 + 2^-12 keeps all 13 bits), and the Dekker product of two
+    # such heads is no longer exact
+    same(f"{FPA}::split_veltkamp scale=False default C", run_kernel(FPA, "split_veltkamp", [ctx, x], dict(scale=False)), ref.call("", "veltkamp", [x, CONST("C")]), loc(FPA, f_sv),
+         "Veltkamp split with the default C = 2^s + 1")
     for cgiven in (False, True):
         kw = dict(scale=True)
-        cc = CONST("N")
+        cc = CONST("C")
         if cgiven:
             kw["C"] = C
             cc = C
@@ -162,7 +165,7 @@ def run(repo, tier):
     for scale in (False, True):
         for cgiven in (False, True):
             kw = dict(scale=scale, fix_overflow=False, assume_fma=False)
-            cc = CONST("N")
+            cc = CONST("C")
             if cgiven:
                 kw["C"] = C
                 cc = C
